@@ -27,6 +27,16 @@ theorem field_order_is_code_order :
     Gen.layoutCertificateChain.map (·.1) = ["Entries"] ∧
     Gen.layoutASN1Cert.map (·.1) = ["Data"] := by decide
 
+/-- the hash field of both hash layouts travels behind a **2-byte** length prefix (regenerated `tls:"maxlen:256"` tags of
+`PrecertChainEntryHash.IssuanceChainHash` / `CertificateChainHash.IssuanceChainHash`): what earlier binaries stored as
+`00 20 ‖ hash` stays readable; certificates and chains behind 3 bytes. A change of these bounds changes the width. -/
+theorem hash_prefix_is_two_bytes :
+    lenWidth pcehHashB.2 = 2 ∧ lenWidth cchHashB.2 = 2 ∧ lenWidth certB.2 = 3 ∧ lenWidth pceChainB.2 = 3 ∧ lenWidth ccEntriesB.2 = 3 := by
+  decide
+
+/-- a stored `00 20 ‖ 32-byte hash` is the CertificateChainHash layout with that hash -/
+example : decCCH ([0, 32] ++ List.replicate 32 7) = some (List.replicate 32 7) ∧ decPCEH ([0, 32] ++ List.replicate 32 7) = none := by decide
+
 /-! ## layouts_disjoint -/
 
 /-- **layouts_disjoint.** Each of the four stored forms is recognised as itself by `FixLogLeaf`'s cascade:
